@@ -428,6 +428,12 @@ func (e *Engine) loadLoc(st *State, loc *Loc) []string {
 			cur = e.fl.zero(e.c, loc.Root)
 			st.locals[loc.Alloc] = cur
 		}
+		if loc.Hi > len(cur) {
+			// the local holds a value of an externally defined struct type kept as one opaque leaf: its fields are
+			// not modelled; over-approximate the read by an arbitrary value of the field's type
+			e.outsideSubset("field of an opaque external struct value")
+			return e.freshVal(st, "opq", loc.T).L
+		}
 		out = append(out, cur[loc.Lo:loc.Hi]...)
 		return out
 	case LField:
